@@ -1,7 +1,8 @@
 """C16 — HKDF and KeyGen match RFC 5869 / the BLS draft (term domain)."""
 from __future__ import annotations
 
-from ..term import AnalysisError, Term, var, show, t_concat
+from ..term import AnalysisError, Term, var, show, t_concat, t_len, substitute
+from ..ranges import interval_of_facts
 from ..interp import Interp, World, enumerate_paths, havoc_while, HashFn
 from ..bls_model import Model, SUITES, CS, resolve
 from ..spec import rfc
@@ -9,6 +10,18 @@ from ..spec.params import BLS, KEYGEN_SALT
 
 HASHMOD = "py_ecc.bls.hash"
 SHA = HashFn("sha256")
+
+
+def renorm(t):
+    """rebuild byte-string terms after a substitution so that concatenations with b"" fold again"""
+    if isinstance(t, Term):
+        args = tuple(renorm(a) for a in t.args)
+        if t.op == "concat":
+            return t_concat(list(args))
+        return Term(t.op, args, t.sort)
+    if isinstance(t, tuple):
+        return tuple(renorm(a) for a in t)
+    return t
 
 
 def run(chk, repo, tier):
@@ -27,10 +40,26 @@ def run(chk, repo, tier):
     ext = repo.func(f"{HASHMOD}.hkdf_extract")
     exp = repo.func(f"{HASHMOD}.hkdf_expand")
     salt, ikm, prk, info = (var(n, "bytes") for n in ("salt", "ikm", "prk", "info"))
-    it = Interp(w)
-    got = it.call_func(ext, [salt, ikm], {})
     want = rfc.hkdf_extract(SHA, salt, ikm)
-    chk.ob("C16.R1", ext.qualname, "HMAC-SHA256(salt, ikm)", got is want, f"got {show(got)}, want {show(want)}", ext.where)
+    epaths = enumerate_paths(w, lambda it: it.call_func(ext, [salt, ikm], {}))
+    bad = []
+    for pth in epaths:
+        if pth.outcome != "return":
+            bad.append(f"raises {pth.value.clsname()} at {pth.value.where}")
+            continue
+        # a path taken only for an empty argument: that argument is b"" there
+        empt = {}
+        for a, t, _w in pth.facts:
+            for v in (salt, ikm):
+                lo, hi, _h, _ = interval_of_facts([(a, t)], t_len(v))
+                if hi <= 0:
+                    empt[v] = b""
+        g, wv = pth.value, want
+        if empt:
+            g, wv = renorm(substitute(g, empt)), renorm(substitute(wv, empt))
+        if g is not wv:
+            bad.append(f"path {' '.join(pth.branch_lines()) or '(straight line)'}: got {show(g)}, want {show(wv)}")
+    chk.ob("C16.R1", ext.qualname, "HMAC-SHA256(salt, ikm)", not bad and len(epaths) >= 1, "; ".join(bad[:2]) or f"{len(epaths)} path(s)", ext.where)
     L = var("length", "int")
     for n in ns + [256]:
         key = Term("ceildiv", (L, 32), "int")
